@@ -906,16 +906,17 @@ impl ExprCompiled {
         step: Option<IrSpanned<ExprCompiled>>,
         ctx: &mut OptCtx,
     ) -> ExprCompiled {
-        if let (Some(array), Some(start), Some(stop), Some(step)) = (
+        // A bound that is written but not a constant must not be mistaken for an absent one.
+        if let (Some(array), Some(Some(start)), Some(Some(stop)), Some(Some(step))) = (
             array.as_builtin_value(),
             start.as_ref().map(|e| e.as_value()),
             stop.as_ref().map(|e| e.as_value()),
             step.as_ref().map(|e| e.as_value()),
         ) {
             if let Ok(v) = array.to_value().slice(
-                start.map(|v| v.to_value()),
-                stop.map(|v| v.to_value()),
-                step.map(|v| v.to_value()),
+                Some(start.to_value()),
+                Some(stop.to_value()),
+                Some(step.to_value()),
                 ctx.heap(),
             ) {
                 if let Some(v) = ExprCompiled::try_value(span, v, ctx.frozen_heap()) {
